@@ -278,6 +278,20 @@ func (rc *RunCtx) runJob(j Job) (res *JobResult) {
 	e.NoMerge = j.NoMerge
 	e.Trace = os.Getenv("GOSYM_TRACE") != ""
 	e.Ctx["known"] = rc.Known
+	if os.Getenv("GOSYM_FORKS") != "" {
+		e.ForkSites = map[string]int{}
+		go func() {
+			for {
+				time.Sleep(15 * time.Second)
+				fmt.Printf("---- %s: steps=%d forks=%d merges=%d fails=%d paths=%d queries=%d\n", j.Name(), e.Stats.Steps, e.Stats.Forks, e.Stats.Merges, e.Stats.MergeFails, e.Stats.Paths, e.Solver.Stats.Queries)
+				type kv struct { k string; v int }
+				var l []kv
+				for k, v := range e.ForkSites { l = append(l, kv{k, v}) }
+				sort.Slice(l, func(a, b int) bool { return l[a].v > l[b].v })
+				for i := 0; i < len(l); i++ { if i >= 15 && !strings.HasPrefix(l[i].k, "MERGEFAIL") { continue }; fmt.Printf("   %6d %s\n", l[i].v, l[i].k) }
+			}
+		}()
+	}
 	st := e.NewState()
 	for _, d := range rc.Spec.InitPkgs {
 		p := rc.Loaded.Pkgs[pkgDirs[d][1]]
